@@ -105,6 +105,22 @@ func VerifyFunc(w *World, spec *FuncSpec, prop string, safetyAll bool) (res *Fun
 		}
 		x.assumeIn(st, v.One())
 	}
+	if x.lockset {
+		mentions := false
+		for _, r := range spec.Requires {
+			if strings.Contains(r.Src, "held") {
+				mentions = true
+			}
+		}
+		if !mentions {
+			// functions are entered without holding any lock unless their contract says otherwise
+			for _, wr := range []bool{true, false} {
+				h, hs := x.heldArr(st, wr)
+				x.assumeIn(st, eq(h, "((as const "+hs.SMT()+") false)"))
+			}
+			x.assume1("functions without a lock precondition are entered with no lock held (callers are checked for balanced locking)")
+		}
+	}
 	fr.entry = st.clone()
 	// vacuity guard: the entry hypotheses must be satisfiable
 	x.obls = append(x.obls, &Obligation{Name: res.Fn + "#vacuity:requires satisfiable", Fn: res.Fn, Kind: "vacuity", Hyps: []string{st.pc}, Goal: "", VC: x.vc, Props: spec.Props})
@@ -114,6 +130,18 @@ func VerifyFunc(w *World, spec *FuncSpec, prop string, safetyAll bool) (res *Fun
 			x.curState = fr.entry
 			x.bindingFailure(fmt.Sprintf("exit clause %q applies at no return of %s", e.Name(), res.Fn))
 		}
+	}
+	if spec.Implicit && spec.Lockset && !spec.NoPanic {
+		// a lock-set sweep keeps only the lock-discipline obligations
+		var keep []*Obligation
+		for _, o := range x.obls {
+			switch {
+			case strings.HasPrefix(o.Kind, "guarded_by"), o.Kind == "lockset", strings.HasPrefix(o.Kind, "pre sync."), o.Kind == "binding", o.Kind == "engine",
+				strings.Contains(o.Name, "lock set unchanged"):
+				keep = append(keep, o)
+			}
+		}
+		x.obls = keep
 	}
 	res.Obls = x.obls
 	res.Unsup = x.unsup
